@@ -672,7 +672,15 @@ def rule_identifier_fields(ctx: Ctx, rep: Report) -> None:
     rep.floor(rule, 2)
 
 
+def rule_ctor_copies_containers_(ctx: Ctx, rep: Report) -> None:
+    """C11.ctor_copies_containers: a constructor stores its own copy of a sequence / mapping argument (see sigcommon.rule_ctor_copies_containers)."""
+    from rules.sigcommon import rule_ctor_copies_containers
+    rule_ctor_copies_containers(ctx, rep, "C11.ctor_copies_containers", ('btclib.psbt', 'btclib.tx'), 15)
+
+
 RULES = [
+    ("C11.ctor_copies_containers", rule_ctor_copies_containers_),
+
     ("C11.identifier_fields", rule_identifier_fields),
     ("C11.extractor_gate", rule_extractor_gate),
     ("C11.unchanged_is_equality", rule_unchanged_is_equality),
